@@ -530,9 +530,14 @@ class QuicConnection:
 
         :param now: The current time.
         """
-        if self._state in END_STATES or not self._network_paths:
-            # Nothing can be sent once the connection is closing, nor before a
-            # server has processed its first INITIAL packet (no peer address yet).
+        if self._state in END_STATES:
+            return []
+        if not self._network_paths:
+            # Nothing can be sent before a server has processed its first INITIAL
+            # packet (no peer address yet), but a requested close still begins.
+            if self._close_pending:
+                self._close_pending = False
+                self._close_begin(is_initiator=True, now=now)
             return []
         network_path = self._network_paths[0]
 
